@@ -290,3 +290,40 @@ func (g *Gen) tailVararg(d int) []Stmt {
 		local1(o, &Table{}), &FuncStmt{Target: v(o), Method: "m", F: &Func{Params: []string{"p"}, Vararg: true, Body: []Stmt{ret(bin("==", v("self"), v(o)), v("p"), call("select", str("#"), &Varargs{}))}}},
 		emit(&Call{F: &Paren{E: &Func{Body: []Stmt{ret(&Meth{O: v(o), M: "m"})}}}}), emit(&Call{F: &Paren{E: &Func{Body: []Stmt{ret(&Meth{O: v(o), M: "m", Args: []Expr{num(7), num(8)}})}}}})}
 }
+
+// operandMatrix: every operator with operands of every storage kind (constant, local, upvalue,
+// global, table field, call result) on either side, in value, condition and argument context.
+func (g *Gen) operandMatrix(d int) []Stmt {
+	g.use("operand-matrix")
+	la, ua, ga, tb, fn := g.fresh("la"), g.fresh("ua"), "GOM"+itoa(g.R.Intn(3)), g.fresh("tf"), g.fresh("om")
+	val := func() float64 { return float64(g.R.Range(-3, 9)) }
+	kinds := func(isStr bool) []Expr {
+		if isStr {
+			return []Expr{str(words[1+g.R.Intn(5)]), v(la + "s"), v(ua + "s"), idx(v(tb), "s"), &Call{F: v(fn + "s")}}
+		}
+		return []Expr{num(val()), v(la), v(ua), v(ga), idx(v(tb), "f"), &Index{E: v(tb), K: num(1)}, &Call{F: v(fn)}, &Paren{E: &Call{F: v(fn)}}}
+	}
+	pick := func(isStr bool) Expr { k := kinds(isStr); return k[g.R.Intn(len(k))] }
+	var rows []Stmt
+	ar := []string{"+", "-", "*", "/", "%", "^"}
+	cm := []string{"<", "<=", ">", ">=", "==", "~="}
+	for i := 0; i < 3; i++ {
+		op := ar[g.R.Intn(4)]
+		rows = append(rows, emit(bin(op, pick(false), pick(false)), bin(ar[g.R.Intn(4)], pick(false), num(val())), bin(op, num(val()), pick(false)), &Un{Op: "-", A: pick(false)}))
+		c := cm[g.R.Intn(6)]
+		rows = append(rows, emit(bin(c, pick(false), pick(false)), bin(c, num(val()), pick(false)), bin(c, pick(false), num(val())), bin(cm[4+g.R.Intn(2)], pick(false), &Nil{}), bin("==", pick(true), str("a")), bin(cm[g.R.Intn(4)], pick(true), pick(true))))
+		rows = append(rows, emit(bin("..", pick(true), pick(false)), bin("..", pick(false), bin("..", pick(true), pick(true))), &Un{Op: "#", A: pick(true)}, &Un{Op: "not", A: pick(false)}))
+		r := g.fresh("tr")
+		rows = append(rows, local1(r, &And{A: pick(false), B: pick(true)}), set(v(r), &Or{A: &And{A: bin(c, pick(false), pick(false)), B: pick(false)}, B: pick(true)}), emit(v(r), &Or{A: &Nil{}, B: pick(false)}, &And{A: &False{}, B: pick(false)}, &Or{A: pick(false), B: &Call{F: v(fn)}}))
+		rows = append(rows, &If{C: &And{A: bin(c, pick(false), pick(false)), B: &Un{Op: "not", A: bin("==", pick(true), pick(true))}}, Then: []Stmt{emit(str("T"))}, Else: []Stmt{emit(str("F"))}, HasElse: true})
+	}
+	// stores into every kind from a multi-valued call
+	rows = append(rows, &Assign{LHS: []Expr{v(la), v(ua), v(ga), idx(v(tb), "f")}, Es: []Expr{&Call{F: v(fn + "m")}}}, emit(v(la), v(ua), v(ga), idx(v(tb), "f")),
+		&Local{Names: []string{"n1", "n2", "n3"}}, local1("n4", &Nil{}), emit(v("n1"), v("n2"), v("n3"), v("n4")))
+	inner := &Func{Body: rows}
+	return []Stmt{local1(ua, num(val())), local1(ua+"s", str("up")), set(v(ga), num(val())),
+		local1(tb, &Table{Items: []TItem{{Kind: 0, E: num(val())}, {Kind: 1, Name: "f", E: num(val())}, {Kind: 1, Name: "s", E: str("fs")}}}),
+		&LocalFunc{X: fn, F: &Func{Body: []Stmt{ret(num(val()), num(99))}}}, &LocalFunc{X: fn + "s", F: &Func{Body: []Stmt{ret(str("cs"), str("x"))}}},
+		&LocalFunc{X: fn + "m", F: &Func{Body: []Stmt{ret(num(val()), num(val()), num(val()))}}},
+		&CallS{E: &Call{F: &Paren{E: &Func{Body: []Stmt{local1(la, num(val())), local1(la+"s", str("lo")), &CallS{E: &Call{F: &Paren{E: inner}}}}}}}}}
+}
